@@ -107,6 +107,13 @@ func TestC05(t *testing.T) {
 	run := func(stream string, c TreeCase) bool {
 		st.Eval()
 		if f := checkC05(c); f != nil {
+			if len(c.Opts.Extra) == 0 {
+				c.Tree = gen.Minimize(c.Tree, func(n *gen.Node) bool {
+					ff := checkC05(TreeCase{Tree: n, Opts: c.Opts})
+					return ff != nil && ff.Sub == f.Sub
+				})
+				f = checkC05(c)
+			}
 			c.Text = gen.Text(c.Tree, c.Opts)
 			st.Violate(stream, c, f)
 			return false
